@@ -48,6 +48,9 @@ def gen_param_value(r, family, depth=0):
         return 'a' * 1300 + 'pqrs'[m % 4] + 'b' * 1300
     if family == 'placeholder':
         return r.choice(['{VA}/in', 'pre_{VB}', '{VA}{VB}', 'x{VA}y{VA}', '{VB}/{VA}/z', '{VC}'])
+    if family == 'phlist':
+        # placeholders inside containers: substituted at any depth, persisted in their placeholder form
+        return copy.deepcopy(r.choice([['{VA}/in', 'x'], {'k': 'pre_{VB}', 'n': 1}, ['{VA}{VB}', ['{VC}', 2]], {'p': {'q': '{VB}/{VA}/z'}}, ['{VA}'], {'a': '{VA}', 'b': '{VB}'}]))
     if family == 'obj':
         t = r.random()
         if t < 0.2:
@@ -81,7 +84,7 @@ def gen_param_value(r, family, depth=0):
     raise ValueError(family)
 
 
-FAMILIES = ['int', 'int', 'str', 'float', 'bool', 'list', 'dict', 'none_or_int', 'placeholder', 'obj', 'objlist', 'intdict']
+FAMILIES = ['int', 'int', 'str', 'float', 'bool', 'list', 'dict', 'none_or_int', 'placeholder', 'obj', 'objlist', 'intdict', 'phlist']
 
 
 def obj_equiv(a, b):
@@ -277,6 +280,9 @@ def _gen_world(r, k):
                         # the declaration gives the default as a Path object, configs spell strings. Without
                         # dont_persist_default_value this is known finding F14 (zone profile only)
                         p['pathobj_default'] = True
+                if fam == 'phlist':
+                    p['placeholder'] = True
+                    p['dpd'] = False
                 if fam == 'placeholder':
                     p['placeholder'] = True
                     p['dpd'] = False
